@@ -1376,6 +1376,8 @@ def run(ctx):
 
 
 def replay(obj):
+    if obj.get("kind") in ("no-failing-input-found", "correspondence") or obj.get("correspondence"):
+        return vlib.replay_correspondence(obj)
     print(json.dumps(obj, indent=1, ensure_ascii=True)[:3000])
     for v in (obj.get("violations") or [obj]):
         r = v.get("replay", v)
